@@ -1,13 +1,14 @@
 import Lean.Data.Json
 import SpoxModel.Model.Subgraph
 import SpoxModel.Model.SubgraphSpec
+import SpoxModel.Model.SubgraphNested
 import SpoxModel.Generated.SubgraphSpecs
 import SpoxModel.Generated.CallbackSites
 import SpoxModel.Generated.CallGraphData
 /-! Line-protocol handler for C19: run one control-flow constructor call (spec *generated from
     /repo*), followed by a list of later steps, on the model; report what every callback saw. -/
 namespace Drv.C19
-open Lean Subgraph
+open Lean Subgraph SubgraphNested
 
 def dimToJson : Dim → Json
   | .n k => toJson k
@@ -107,7 +108,87 @@ def eventJson (e : Event) : Json :=
   Json.mkObj [("cb", toJson e.cb), ("args", toJson e.args),
     ("types", Json.arr (e.types.map tyToJson).toArray)]
 
+/-- Expand one constructor call of a nested program into its `subgraph` invocations (one tree per
+    `subgraph(…)` call of the *generated* spec, in source order; the children of a tree are the
+    invocations of the constructors its callback calls). Also the `out_variadic` of every constructor
+    call, in completion order. -/
+partial def expandCall (j : Json) : Except String (List Tree × List Int) := do
+  let mod ← j.getObjValAs? String "mod"
+  let ctor ← j.getObjValAs? String "ctor"
+  let spec ← match findSpec mod ctor with
+    | some s => pure s
+    | none => throw s!"no spec for {mod}.{ctor}"
+  let lists ← (← objPairs (j.getObjValD "lists")).mapM (fun (p : String × Json) => do
+    let arr ← p.2.getArr?
+    return (p.1, ← arr.toList.mapM parseOperand))
+  let singles ← (← objPairs (j.getObjValD "singles")).mapM (fun (p : String × Json) => do
+    return (p.1, ← parseOperand p.2))
+  let ints ← (← objPairs (j.getObjValD "ints")).mapM (fun (p : String × Json) => do
+    return (p.1, ← p.2.getInt?))
+  let env : Env := ⟨lookupD [] lists, lookupD none singles, lookupD 0 ints⟩
+  let cbs ← j.getObjVal? "cbs"
+  let mut trees : List Tree := []
+  let mut outs : List Int := []
+  let mut outN : Option Nat := none
+  for (nm, e) in spec.subgraphs do
+    let types ← match evalList env e with
+      | .ok ts => pure ts
+      | .error err => throw s!"type expression of {nm} raises {errName err}"
+    let cb ← cbs.getObjVal? nm
+    let id ← cb.getObjValAs? Nat "id"
+    let n ← cb.getObjValAs? Nat "n"
+    let inner := (cb.getObjValAs? (Array Json) "inner").toOption.getD #[]
+    let mut children : List Tree := []
+    for c in inner.toList do
+      let (ts, os) ← expandCall c
+      children := children ++ ts
+      outs := outs ++ os
+    trees := trees ++ [Tree.node id types n children]
+    if nm == spec.outGraph then outN := some n
+  match outN with
+  | none => throw "out graph not among the subgraphs"
+  | some n => return (trees, outs ++ [(n : Int) - spec.outMinus])
+
+def handleNested (req call : Json) : Json :=
+  match (do
+    let (trees, outs) ← expandCall call
+    let steps ← ((req.getObjValAs? (Array String) "steps").toOption.getD #[]).toList.mapM parseStep
+    let w1 := runForest trees ⟨[], 0⟩
+    -- the node keeps every callback of the tree (for steps that would re-run stored constructors)
+    let node : Node := ⟨w1.events.reverse.map (fun (e : Event) => ("cb", (⟨e.cb, e.args, 0⟩ : Graph))), 0⟩
+    let w2 := runSteps Generated.CallGraphData.graph node steps w1
+    let ids : List Nat := (SubgraphNested.idsF trees).eraseDups
+    return Json.mkObj [
+      ("events", Json.arr (w1.events.reverse.map eventJson).toArray),
+      ("outs", toJson outs),
+      ("counts", Json.mkObj (ids.map (fun i => (toString i, toJson (w2.count i))))),
+      ("countsAfterCtor", Json.mkObj (ids.map (fun i => (toString i, toJson (w1.count i)))))]) with
+  | .ok j => j
+  | .error e => Json.mkObj [("error", e)]
+
+/-- `subgraph(types, fun)` called directly. -/
+def handleDirect (d : Json) : Json :=
+  match (do
+    let kind ← d.getObjValAs? String "types"
+    let tys ← ((d.getObjValAs? (Array Json) "tys").toOption.getD #[]).toList.mapM parseTy
+    let ta : TypesArg := if kind == "ok" then .ok tys else if kind == "notIterable" then .notIterable else .hasNonType
+    let (id, beh) ← parseBeh (← d.getObjVal? "cb")
+    let (res, w1) := subgraphEntry ta id beh ⟨[], 0⟩
+    let resJ := match res with
+      | .ok g => Json.mkObj [("ok", toJson g.nResults), ("nargs", toJson g.args.length)]
+      | .error e => Json.mkObj [("err", errName e)]
+    return Json.mkObj [("result", resJ), ("events", Json.arr (w1.events.reverse.map eventJson).toArray),
+      ("count", toJson (w1.count id))]) with
+  | .ok j => j
+  | .error e => Json.mkObj [("error", e)]
+
 def handle (req : Json) : Json :=
+  match req.getObjVal? "direct" with
+  | .ok d => handleDirect d
+  | .error _ =>
+  match req.getObjVal? "nested" with
+  | .ok call => handleNested req call
+  | .error _ =>
   match (do
     let mod ← req.getObjValAs? String "mod"
     let ctor ← req.getObjValAs? String "ctor"
